@@ -9,7 +9,7 @@ from .tlc import run_tlc
 
 
 def validate_trace(ctx, module: str, cfg: str, records: list[dict], name: str = "trace", env: dict | None = None,
-                   timeout: int = 600, jvm=None):
+                   timeout: int = 600, jvm=None, libdirs=None):
     """Returns (accepted: bool, consumed: int, res).  `consumed` = number of leading records TLC could explain."""
     scratch = ctx.subdir(f"tr.{name}")
     path = scratch / f"{name}.ndjson"
@@ -18,7 +18,7 @@ def validate_trace(ctx, module: str, cfg: str, records: list[dict], name: str = 
             fp.write(json.dumps(r, sort_keys=True) + "\n")
     e = {"TRACE_FILE": str(path)}
     e.update(env or {})
-    res = run_tlc(module, cfg, scratch, env=e, workers=1, timeout=timeout, jvm=jvm)
+    res = run_tlc(module, cfg, scratch, env=e, workers=1, timeout=timeout, jvm=jvm, libdirs=libdirs)
     if res.depth == 0 and "diameter" not in res.out and "depth of the complete" not in res.out:
         raise MachineryError(f"trace validation {module}: TLC produced no search depth\n{res.out[-2000:]}")
     consumed = max(res.depth - 1, 0)
